@@ -1062,7 +1062,10 @@ func (b *broker) subEventHistory(msg *wamp.Invocation) wamp.Message {
 		}
 	}
 
-	limit, ok = msg.ArgumentsKw["limit"].(int)
+	// The value has the integer type its serializer decodes to, or is a
+	// plain int when the caller is an in-process client.
+	limit64, ok := wamp.AsInt64(msg.ArgumentsKw["limit"])
+	limit = int(limit64)
 	if ok && limit < 1 {
 		return &wamp.Error{
 			Type:    msg.MessageType(),
@@ -1144,8 +1147,8 @@ func (b *broker) subEventHistory(msg *wamp.Invocation) wamp.Message {
 
 	fromPubOp, ok := msg.ArgumentsKw["from_publication"]
 	if ok {
-		fromPub, ok = fromPubOp.(wamp.ID)
-		if !ok || fromPub < 1 {
+		fromPub, ok = wamp.AsID(fromPubOp)
+		if !ok {
 			return &wamp.Error{
 				Type:    msg.MessageType(),
 				Request: msg.Request,
@@ -1158,8 +1161,8 @@ func (b *broker) subEventHistory(msg *wamp.Invocation) wamp.Message {
 
 	afterPubOp, ok := msg.ArgumentsKw["after_publication"]
 	if ok {
-		afterPub, ok = afterPubOp.(wamp.ID)
-		if !ok || afterPub < 1 {
+		afterPub, ok = wamp.AsID(afterPubOp)
+		if !ok {
 			return &wamp.Error{
 				Type:    msg.MessageType(),
 				Request: msg.Request,
@@ -1171,8 +1174,8 @@ func (b *broker) subEventHistory(msg *wamp.Invocation) wamp.Message {
 
 	beforePubOp, ok := msg.ArgumentsKw["before_publication"]
 	if ok {
-		beforePub, ok = beforePubOp.(wamp.ID)
-		if !ok || beforePub < 1 {
+		beforePub, ok = wamp.AsID(beforePubOp)
+		if !ok {
 			return &wamp.Error{
 				Type:    msg.MessageType(),
 				Request: msg.Request,
@@ -1184,8 +1187,8 @@ func (b *broker) subEventHistory(msg *wamp.Invocation) wamp.Message {
 
 	untilPubOp, ok := msg.ArgumentsKw["until_publication"]
 	if ok {
-		untilPub, ok = untilPubOp.(wamp.ID)
-		if !ok || untilPub < 1 {
+		untilPub, ok = wamp.AsID(untilPubOp)
+		if !ok {
 			return &wamp.Error{
 				Type:    msg.MessageType(),
 				Request: msg.Request,
